@@ -312,9 +312,15 @@ def run_memory(case, ctx):
         with warnings.catch_warnings():
             warnings.simplefilter("ignore")
             mmap_mode = rng.choice([None, None, "r", "c"])
-            mem = Memory(d, verbose=0, compress=compress, mmap_mode=mmap_mode)
+            mem = Memory(d, verbose=rng.choice([0, 0, 0, 1, 11]), compress=compress, mmap_mode=mmap_mode)
             f = mem.cache(cached_fn)
-        x, n = rng.randrange(100), rng.choice([0, 10, 5000, 20000])
+        # the argument is echoed in the messages joblib writes about the damaged entry (warnings, verbose logging): text with format
+        # directives, containers whose repr has braces, very long and multi-line values must not matter
+        x = rng.choice([rng.randrange(100), rng.randrange(100), {"alpha": 0.5, "k": [1, 2]}, {}, {1, 2, 3}, "{name}.csv", "a}b{", "100%s %d %(x)s", "{0} {} {!r}",
+                        "line1\nline2\\", "x" * 3000, ("t", {"n": None}), None, b"{bytes}", [{"deep": {"er": "{}"}}], frozenset({"{"}), 1.5, "é{ü}"])
+        if not isinstance(x, int):
+            ctx.count("memory_entries_called_with_a_non_trivial_argument")
+        n = rng.choice([0, 10, 5000, 20000])
         want = cached_fn(x, n)
         f(x, n)
         path = os.path.join(mem.store_backend.location, f.func_id, f._get_args_id(x, n), "output.pkl")
